@@ -29,7 +29,33 @@ SHAPES = {
 }
 
 
+def all_dags(n):
+    """Every labelled DAG on n nodes as an edge list (i, j) = i uses j."""
+    pairs = [(i, j) for i in range(n) for j in range(n) if i != j]
+    out = []
+    for bits in range(1 << len(pairs)):
+        edges = [pairs[k] for k in range(len(pairs)) if bits >> k & 1]
+        # acyclic?
+        rem = set(range(n))
+        while True:
+            strip = [x for x in rem if not any(a == x and b in rem for a, b in edges)]
+            if not strip:
+                break
+            rem -= set(strip)
+        if not rem:
+            out.append(edges)
+    return out
+
+
 def shape_targets(shape):
+    if shape.startswith("dag"):
+        n, bits = shape[3:].split(":")
+        n = int(n)
+        edges = [tuple(map(int, e.split("-"))) for e in bits.split(",") if e]
+        ts = [{"path": NAMES[i]} for i in range(n)]
+        for i, j in edges:
+            ts[i].setdefault("uses", []).append(NAMES[j])
+        return ts
     n, edges = SHAPES[shape]
     if n == "nested":
         # p, p/c nested in it, q uses a file inside p/c
@@ -106,6 +132,17 @@ def c04_scenarios(tier):
                 sn = sched.Scenario("%s/%s/%s" % (sh, "+".join(cmds), mname), ts, all_x(ts, cmds), a, cmds,
                                     checkpoint=cp, changed=changed, sequences=seqs, explicit=explicit, deps=deps)
                 out.append(("c04", sn.describe(), {"max_dev": maxdev, "sequences": seqs}))
+        pass
+    if tier == "thorough":
+        for n in (2, 3, 4):
+            for edges in all_dags(n):
+                sh = "dag%d:%s" % (n, ",".join("%d-%d" % e for e in edges))
+                ts = shape_targets(sh)
+                sn = sched.Scenario("%s/build/all" % sh, ts, all_x(ts, ["build"]), ["-c", "build"], ["build"])
+                out.append(("c04", sn.describe(), {"max_dev": 99, "sequences": None}))
+    for sh in shapes:
+        ts = shape_targets(sh)
+        paths = [t["path"] for t in ts]
         # eager deviation: each single child (first command) released the instant it arrives
         for t in paths:
             sn = sched.Scenario("%s/build/eager:%s" % (sh, t), ts, all_x(ts, ["build"]), ["-c", "build"], ["build"],
@@ -678,7 +715,7 @@ def run_tasks(tasks, workers=None):
 
 
 RULES = {
-    "C04": "scenarios: 12 dependency shapes x selection modes (all targets / changed subset after a checkpoint / -t with --deps) x command lists (build; build test; sequence(build,test) then lint); every child blocks until released; stateless DFS over every release order (single-command scenarios: all orders; multi-command: all schedules with <= max_dev non-default choices) plus the eager deviation for every single child; monitor: at each arrival every dependency in the run and every executable of every earlier command has exited; evaluations = executions (complete runs); non-trivial = scenarios with more than one schedule",
+    "C04": "(thorough adds every labelled DAG on 2-4 nodes, single command, every release order) scenarios: 12 dependency shapes x selection modes (all targets / changed subset after a checkpoint / -t with --deps) x command lists (build; build test; sequence(build,test) then lint); every child blocks until released; stateless DFS over every release order (single-command scenarios: all orders; multi-command: all schedules with <= max_dev non-default choices) plus the eager deviation for every single child; monitor: at each arrival every dependency in the run and every executable of every earlier command has exited; evaluations = executions (complete runs); non-trivial = scenarios with more than one schedule",
     "C16": "group sizes x position of the group in the plan (only, first, middle, last) x 1-2 commands; no member is released before every member of the group has arrived (each member waits for all the others to start); oracle: every member arrives, then the run exits 0 with all success entries; non-trivial = scenarios where the full group rendezvoused for every command",
     "C06": "part B (internal orderings): plans with a group of n in {1,2,3} (thorough 4) followed by a dependent target, all commands succeed, points group.pre_shutdown:<i> and compressor.gone:<x> active; the free run, every single constraint `compressor.gone:x before group.pre_shutdown:i` per group and pairs of constraints (hit b is held until hit a was seen); oracle exit 0, failed=false, all success, stored logs complete. part A: plans = dependency shapes with two commands; fault assignments: every single fault (exit codes, missing x bit, undefined with/without --fail-on-undefined) at every (command,target) position, pairs of faults within a command, and no fault; for each every release order of the groups (<=3 members); oracle: failed flag, exit status, skipped/not-started later groups and commands, status truthfulness; evaluations = executions",
     "C05": "dependency shapes x command-definition patterns x command lists x selection modes (no targets without checkpoint; checkpoint + every changed subset; -t S; -t S --deps) in trace mode; oracle: result document pairs == commands x selected targets exactly once, groups equal analyze --target-groups taken immediately before (or singletons / a valid layering of the closure), executable starts at most once, exactly once iff defined and nothing failed earlier, never when undefined; evaluations = runs",
